@@ -19,7 +19,7 @@ import (
 	"verif/h/senderkit"
 )
 
-func units(string) []mc.Unit {
+func units(tier string) []mc.Unit {
 	var us []mc.Unit
 	for _, retry := range []bool{false, true} {
 		for _, flow := range []string{"PP", "FEP"} {
@@ -27,6 +27,17 @@ func units(string) []mc.Unit {
 				cfg := senderkit.Cfg{Flow: flow, Retry: retry, Hist: h}
 				us = append(us, mc.Unit{Name: cfg.String(), Params: cfg})
 			}
+		}
+	}
+	// transient storage faults under MaxRetriesStoreCertificate = 0 ("retry until the submitted certificate is stored"):
+	// the node must not go on to the next certificate while the submitted one is missing from its table
+	for _, retry := range []bool{false, true} {
+		for h := range senderkit.HistoryNames {
+			if tier == "quick" && h > 0 {
+				continue
+			}
+			cfg := senderkit.Cfg{Flow: "PP", Retry: retry, Hist: h, Faults: true, StoreRetriesForever: true}
+			us = append(us, mc.Unit{Name: cfg.String() + ",storage-faults", Params: cfg})
 		}
 	}
 	return us
@@ -44,7 +55,17 @@ func depth(tier string) int {
 	return 9
 }
 
-var opts = senderkit.Opts{RowsMatchAgglayer: true}
+var baseOpts = senderkit.Opts{RowsMatchAgglayer: true}
+
+// optsFor: the storage-fault units add the one-shot write faults of the send path (at most two per history), nothing else
+// of the crash alphabet (that is C13's)
+func optsFor(cfg senderkit.Cfg) senderkit.Opts {
+	o := baseOpts
+	if cfg.Faults {
+		o.Crashes, o.StorageFaultsOnly, o.MaxCrashEvents = true, true, 2
+	}
+	return o
+}
 
 func worldDir(u mc.Unit) string {
 	return filepath.Join(senderkit.ScratchRoot(), fmt.Sprintf("c02-%d-%s", os.Getpid(), u.Name))
@@ -52,6 +73,7 @@ func worldDir(u mc.Unit) string {
 
 func runUnit(r *mc.Report, base *mc.Ctx, u mc.Unit) {
 	cfg := u.Params.(senderkit.Cfg)
+	opts := optsFor(cfg)
 	w := senderkit.NewWorld(cfg.Hist, worldDir(u))
 	defer w.Close()
 	// determinism self-check: one fixed history twice on fresh objects, same key and same observation
@@ -72,7 +94,7 @@ func replay(c *mc.Ctx, u mc.Unit, v mc.Violation) {
 	cfg := u.Params.(senderkit.Cfg)
 	w := senderkit.NewWorld(cfg.Hist, worldDir(u)+"-replay")
 	defer w.Close()
-	o := opts
+	o := optsFor(cfg)
 	o.Verbose = true
 	senderkit.Run(c, cfg, o, w, v.History)
 }
